@@ -788,12 +788,13 @@ class tzfile(_tzinfo):
 
         # Calculate the difference in offsets from current to previous
         timestamp = _datetime_to_timestamp(dt)
-        tti = self._get_ttinfo(idx)
 
         if idx is None or idx < 0:
             return False
 
-        od = self._get_ttinfo(idx - 1).offset - tti.offset
+        # The type this transition switches to, even if it is the last one
+        # (after which _get_ttinfo() falls back to standard time)
+        od = self._get_ttinfo(idx - 1).offset - self._trans_idx[idx].offset
         tt = self._trans_list[idx]          # Transition time
 
         return timestamp < tt + od
